@@ -16,7 +16,7 @@ OBLIGATIONS = [
     SX("sx_compress", "sx_c05", "ob_compress", cls="E", quick=400, thorough=2400, parts={"quick": 5, "thorough": 6},
        functions=["src/biotite/structure/io/pdbx/compress.py:compress/_compress_data/_find_best_integer_compression/_to_smallest_integer_type/_get_decimal_places",
                   "src/biotite/structure/io/pdbx/bcif.py:BinaryCIFData/Column/File serialize/deserialize/read/write", E_ + "encode_stepwise/decode_stepwise (compiled)"],
-       bounds="integer arrays = all pairs (thorough: triples) of a 25-value boundary menu (incl. the int64 limits), each array also in the narrowest dtype holding it, (+-1 around every width limit); float arrays from a 19-value menu (incl. values needing more than 10 decimals: 1.5e-12, 3e-11, 0.123456789012) x tolerance {1e-6,1e-3,1e-9} x float32/64 x {data, category, file}; non-finite and overflowing floats; string arrays with masks (empty, duplicate, non-ASCII); 6 explicit encoding chains"),
+       bounds="integer arrays = all pairs (thorough: triples) of a 25-value boundary menu (incl. the int64 limits), each array also in the narrowest dtype holding it, (+-1 around every width limit); float arrays from a 21-value menu (incl. values needing more than 10 decimals: 1.5e-12, 3e-11, 0.123456789012, 1.23456789e-12, 1e-20) x tolerance {1e-6,1e-3,1e-9} x float32/64 x {data, category, file}; non-finite and overflowing floats; string arrays with masks (empty, duplicate, non-ASCII); 6 explicit encoding chains"),
     SX("sx_fixedpoint", "sx_c05", "ob_fixedpoint", cls="E", quick=60, parts=1,
        functions=[E_ + "FixedPointEncoding.encode/decode (compiled)"], bounds="7 boundary values x factor {1,10,1000}"),
     SX("sx_safe_cast", "sx_c05", "ob_safe_cast", cls="E", quick=100, parts=1,
